@@ -61,6 +61,9 @@ pub enum Op {
     Cold { n: usize },
     /// bincode save + load + compare nothing (C12 totality of serialization)
     Save { n: usize },
+    /// `len` calls fed from a fixed cycle of 4096 clean ticks (derived from `seed`): billions of calls on
+    /// one instance at a few ns each - a 32-bit call counter wraps (C12 thorough)
+    Soak { n: usize, seed: u64, len: u64 },
 }
 
 impl Op {
@@ -76,7 +79,8 @@ impl Op {
             | Op::Migrate { n, .. }
             | Op::Format { n }
             | Op::Cold { n }
-            | Op::Save { n } => *n,
+            | Op::Save { n }
+            | Op::Soak { n, .. } => *n,
             Op::Fork { src, .. } => *src,
         }
     }
@@ -94,6 +98,7 @@ impl Op {
             Op::Format { .. } => "format",
             Op::Cold { .. } => "cold_restart",
             Op::Save { .. } => "save",
+            Op::Soak { .. } => "soak",
         }
     }
     pub fn kind_code(&self) -> u64 {
@@ -110,6 +115,7 @@ impl Op {
             Op::Format { .. } => 10,
             Op::Cold { .. } => 11,
             Op::Save { .. } => 12,
+            Op::Soak { .. } => 13,
         }
     }
 }
